@@ -68,8 +68,12 @@ class ClockModel:
 
     def deadline(self, entry, notif):
         """Trigger time of an until() notification entered at `entry` (INF = never)."""
+        if notif[0] == 'time_ge':
+            return max(entry, num(notif[1]))
+        if notif[0] == 'time_eq':
+            return num(notif[1]) if num(notif[1]) >= entry else INF
         if notif[0] != 'delay':
-            raise InvalidCase('C01 guards are delays')
+            raise InvalidCase('C01 guards are delays and dates')
         return entry + num(notif[1])
 
     def activity(self, a, start, H):
@@ -186,7 +190,48 @@ def delays(floaty):
 
 
 @st.composite
+def shared_date_programs(draw):
+    """several activities around ONE date object (`deadline = time >= T` kept in a variable): plain waits, waits that are
+    torn down before the date, until-blocks guarded by it - also nested in one activity, or around a wait for the same
+    object - in every order of arrival; whoever is torn down, everybody else resumes at the date"""
+    start = draw(st.sampled_from([0, 0, -2, 1.5]))
+    T = start + draw(st.sampled_from([1, 2, 2.5, 4]))
+    kind = draw(st.sampled_from(['at_ge', 'at_ge', 'at_eq']))
+    guard = 'time_ge' if kind == 'at_ge' else 'time_eq'
+    roots = []
+    for i in range(draw(st.integers(2, 5))):
+        steps = []
+        pre = draw(st.sampled_from([0, 0, 0.25, 0.5]))
+        if pre:
+            steps.append({'op': 'sleep', 'd': pre})
+        form = draw(st.sampled_from(['wait', 'wait', 'torn', 'torn', 'guarded', 'nested', 'guard_and_wait']))
+        wait = {'op': kind, 't': T}
+        if form == 'wait':
+            steps.append(wait)
+        elif form == 'torn':
+            # gives up before the date (and may come back to the same object afterwards)
+            steps.append({'op': 'until', 'notif': ['delay', draw(st.sampled_from([0, 0.25, 0.5, 0.75]))], 'children': [],
+                          'body': [wait]})
+            if draw(st.booleans()):
+                steps.append(wait)
+        elif form == 'guarded':
+            steps.append({'op': 'until', 'notif': [guard, T], 'children': [], 'body': [{'op': 'sleep', 'd': 5}]})
+        elif form == 'nested':
+            steps.append({'op': 'until', 'notif': [guard, T], 'children': [], 'body': [
+                {'op': 'until', 'notif': [guard, T], 'children': [], 'body': [{'op': 'sleep', 'd': 5}]},
+                {'op': 'sleep', 'd': 5}]})
+        else:
+            steps.append({'op': 'until', 'notif': [guard, T], 'children': [], 'body': [wait, {'op': 'sleep', 'd': 5}]})
+        if draw(st.booleans()):
+            steps.append({'op': 'sleep', 'd': 0.5})
+        roots.append({'name': 'a%d' % (i + 1), 'steps': steps})
+    return {'start': start, 'floaty': 0, 'roots': roots, 'shared_dates': True}
+
+
+@st.composite
 def programs(draw, tier):
+    if draw(st.integers(0, 7)) == 0:
+        return draw(shared_date_programs())
     floaty = {0: 1, 1: 2, 2: 2}.get(draw(st.integers(0, 9)), 0)
     big = tier == 'thorough'
     counter = [0]
@@ -218,6 +263,10 @@ def programs(draw, tier):
                        'children': [], 'body': steps(depth + 1, 3)}
                 if blk['op'] == 'until':
                     blk['notif'] = ['delay', draw(D)]
+                    if draw(st.integers(0, 2)) == 0:
+                        # a date as the guard (with shared date objects: the very object that the body, an inner
+                        # block or another activity waits for as well)
+                        blk['notif'] = [draw(st.sampled_from(['time_ge', 'time_ge', 'time_eq'])), draw(T)]
                 for _ in range(draw(st.integers(0, 3))):
                     ch = {'name': name(), 'steps': steps(depth + 1, 4)}
                     m = draw(st.integers(0, 3))
